@@ -25,7 +25,9 @@ def check(report, tier, seed):
     if tier == "thorough":
         sets = [list(s) for r in range(6) for s in itertools.combinations(F, r)]
     else:
-        sets = [default, [], list(F)] + [[f for f in F if f != g] for g in F]
+        # none, all, all-but-one, each alone: every assignment of every three options occurs
+        # (a 3-way covering array), so an interaction of up to three options cannot hide
+        sets = [default, [], list(F)] + [[f for f in F if f != g] for g in F] + [[g] for g in F]
         sets = [s for i, s in enumerate(sets) if s not in sets[:i]]
     total = collections.Counter()
     sep_cases = [{"ast": ast, "env": ENV, "tag": "sep:" + name} for name, lst in SEPARATORS.items() for ast in lst]
@@ -69,7 +71,7 @@ def check(report, tier, seed):
     report.coverage["evaluations"] = total["accepted"] + total["rejected"] + len(sets) * (len(sep_cases) + len(pcases))
     report.coverage["distinct_nontrivial"] = len(sets) * len(sep_cases)
     report.coverage["exhaustive"] = tier == "thorough"
-    report.coverage["rule"] = ("%d of the 32 option sets (thorough: all 32), each a separate build of the implementation: separating expressions per rule "
+    report.coverage["rule"] = ("%d of the 32 option sets (none, all, all-but-one, each alone: every combination of any three options occurs; thorough: all 32), each a separate build of the implementation: separating expressions per rule "
                                "(accepted iff the option is off), random well-typed and one-fault expressions against the model run with the same option "
                                "record, and programs simulated under every set that accepts them with all traces compared" % len(sets))
     report.coverage["distribution"] = dict(total)
